@@ -23,6 +23,7 @@ EXPLANATION = (
 EXPLANATION += (' Batch workers: mutable module-level objects only (annotations, typing aliases, loggers and constants do not count). Premise: every run / repetition builds its own model (C15/C16 worker rules).')
 EXPLANATION += (" Building and stepping a model (everything reachable from Model.__init__, Model.execute, execute_systems) reads no module-level mutable state; no package function calls seed() / setstate() on a model's generator; the batch drivers step through Model.execute (C15 / C16 rule).")
 EXPLANATION += (" Premises: C20's per-class state (R-SHARED), C14's build() through C15 / C16.")
+EXPLANATION += (" Importing the package executes no call statement at module level. Premise: C03's accessor / join-leave / registration rules.")
 ASSUMPTIONS = ["random.Random(seed) is deterministic for a given seed (library)", "user systems are outside the package",
                "dict/list iteration order does not depend on PYTHONHASHSEED (language fact)"]
 
@@ -245,6 +246,8 @@ def run(cx: Cx):
     if not any(o.key.endswith('stepping-reads-no-module-state') for o in cx.violations()):
         cx.ok('R-ENTROPY', f"building and stepping a model reads no module-level mutable state ({n_st} reachable functions examined)",
               where=cx.where(roots[1]), function=roots[1].qualname)
+    from .common import check_import_has_no_side_effects
+    check_import_has_no_side_effects(cx)
     _premises(cx)
     from .common import check_no_stateful_memo
     check_no_stateful_memo(cx)
@@ -276,11 +279,16 @@ def _premises(cx):
     # class-level state other models can change hands the same seed different candidates)
     include_premises(cx, ['C13'], 'the candidates of a random pick / shuffle are a function of this model\'s state only',
                      only=lambda o: 'exact-template-and-tag-filter' in o.key or o.rule == 'R-FWD')
+    _ACC3 = ('.get_component', '.has_component', '.__getitem__', 'Environment.add_agent', 'Environment.remove_agent', '.set_model',
+             '.register_component', '.deregister_component')
+    include_premises(cx, ['C03'], "what a model's systems read - an agent's components, the component listings - belongs to that model: "
+                     "look-ups do not fall back to class-level state, joining and leaving (de)register with the environment's own model",
+                     only=lambda o: (o.function or '').endswith(_ACC3))
     keep = ('fresh-model-per-run', 'one-score-of-own-model-per-repetition', 'no-module-level-state', 'work-list-is-product-times-repetitions',
             'evaluates-the-built-product-list', 'pool-arm-is-an-ordered-map', 'steps-through-Model.execute')
     include_premises(cx, ['C15', 'C16'], 'a run is reproducible from its seed, in whatever process it is executed, only if every run and '
                      'repetition builds its own model and the results of a sweep are attributed to their runs independently of worker timing',
-                     only=lambda o: any(k in o.key for k in keep) or 'not a Pool created in this call' in o.message
+                     only=lambda o: any(k in o.key for k in keep) or 'not a Pool created in this call' in o.message or 'pool of THREADS' in o.message
                      or (o.function or '').endswith('ParameterList.build'))
     # class-level state that runs read is per class: a table shared by all agent classes lets the set-up of an unrelated model
     # overwrite what a seeded run is using
